@@ -2,8 +2,8 @@
 META = {
     "level": "exploration",
     "technique": "runtime monitoring of the real Checker/verifier/Repairer on an in-process grid over generated share-damage compositions; verdicts of check/verify are compared with an independent byte-level reader's view of every share file, repairs are judged by reading the file from the repaired shares alone",
-    "text": "Reference shares of a random file are installed in arbitrary placements (spread, random, duplicates, one server) with any subset missing or damaged by family (bit flips per section, truncation, offset-table edits, re-packed URI extension, share-hash/block-hash/ciphertext-hash node edits, block overwrites, block overwrite with a recomputed self-consistent block hash tree, share-number swaps, shares of another file or encoding, don't-care edits). node.check(verify=False/True) and node.check_and_repair(verify=...) run on nodes built from the read-cap and from the verify-cap only. Oracle: with verify every (server, share) reported good must have the same reader's view (blocks, hash regions, share-hash records, URI extension) as the reference share and every untouched share must be reported good; without verify the sharemap must equal what is present; is_healthy <=> N distinct good share numbers and is_recoverable <=> >= k; after a successful repair a fresh client holding the original read-cap reads the exact plaintext from the shares the repair created alone (when there are >= k of them, else from all), every share the repair created has the reference view, a fresh check confirms the healthy claim, and shares that were good before keep their data and leases.",
-    "note": "Good = reader's view equal to the reference share from an honest upload of the same file, key and parameters; differences confined to bytes no reader consults are don't-care. Trusts the in-process Wire/virtual reactor and the reference upload (C01). Sampled exploration.",
+    "text": "Reference shares of a random file are installed in arbitrary placements (spread, random, duplicates, one server) with any subset missing or damaged by family (bit flips per section, truncation, offset-table edits, re-packed URI extension, share-hash/block-hash/ciphertext-hash node edits, block overwrites, block overwrite with a recomputed self-consistent block hash tree, share-number swaps, shares of another file or encoding, don't-care edits). node.check(verify=False/True) and node.check_and_repair(verify=...) run on nodes built from the read-cap and from the verify-cap only, through node objects with history (fresh, read before the repair, repaired twice with shares lost again in between), with small/odd segment sizes and varied downloader segment-size guesses, and with servers that accept the allocation of a replacement share and then fail or disconnect on write/close. Oracle: with verify every (server, share) reported good must have the same reader's view (blocks, hash regions, share-hash records, URI extension) as the reference share and every untouched share must be reported good; without verify the sharemap must equal what is present; is_healthy <=> N distinct good share numbers and is_recoverable <=> >= k; after a successful repair a fresh client holding the original read-cap reads the exact plaintext from the shares the repair created alone (when there are >= k of them, else from all), every share the repair created has the reference view, a fresh check confirms the healthy claim, every share the post-repair results list exists on that server's disk and their healthy/count flags agree with the disk, every share the repair created passes check(verify=True) from a fresh client, and shares that were good before keep their data and leases.",
+    "note": "Good = reader's view (computed from the bytes the real storage server serves for the share) equal to the reference share from an honest upload of the same file, key and parameters; differences confined to bytes no reader consults are don't-care. Trusts the in-process Wire/virtual reactor and the reference upload (C01). Sampled exploration.",
 }
 LEVEL = "exploration"
 BUDGET = {"quick": 50, "thorough": 480}
@@ -126,7 +126,7 @@ def run(ck):
                                          for s in rng.sample(range(ns), max(1, ns // 2))]
         with ck.watchdog(180, "case %d" % i):
             one_case(ck, rng, case)
-        if ck.tier == "quick" and ck.evaluations >= 120:
+        if ck.tier == "quick" and ck.evaluations >= 250:
             break      # fixed number of cases: a quick run is reproducible per VERIF_SEED on any machine
     ck.require_monitor("verify-good-implies-intact", "verify-intact-implies-good", "check-sharemap-equals-present",
                        "health-flags", "repair-read-back", "repair-preserves-good-shares", "repaired-share-valid",
@@ -234,23 +234,36 @@ def one_case(ck, rng, case):
 
         def snapshot():
             out = {}
+            served = {}
+            for vs in g.servers:
+                # what a reader can obtain: the bytes the real storage server hands out for this share (it decides
+                # where the share data ends -- container header field or file size minus leases)
+                try:
+                    for sh_, br in vs.ss.get_buckets(si).items():
+                        try:
+                            served[(vs.index, sh_)] = br.read(0, 2 ** 32)
+                        except Exception:
+                            served[(vs.index, sh_)] = None
+                except Exception:
+                    pass
             for (vs, sh, path) in g.find_shares(si):
                 with open(path, "rb") as f:
                     raw = f.read()
                 dd = R.share_data(raw)
-                if sh in refdata and dd == refdata[sh]:
+                sv = served.get((vs.index, sh))
+                if sh in refdata and dd == refdata[sh] and sv == refdata[sh]:
                     cls = "intact"
-                elif sh in refview and R.reader_view(dd, block_size, nseg, tail_block) == refview[sh] \
-                        and refview[sh] is not None:
+                elif sh in refview and refview[sh] is not None and sv is not None \
+                        and R.reader_view(sv, block_size, nseg, tail_block) == refview[sh]:
                     cls = "equivalent"
                 else:
                     cls = "damaged"
-                out[(vs.index, sh)] = (cls, raw, path)
+                out[(vs.index, sh)] = (cls, raw, path, sv)
             return out
 
-        def classify(raw, sh):
+        def classify(served_bytes, sh):
             """Mechanism class of a damaged share that the verifier accepted (deterministic; names what differs)."""
-            view = R.reader_view(R.share_data(raw), block_size, nseg, tail_block)
+            view = R.reader_view(served_bytes, block_size, nseg, tail_block)
             ref = refview.get(sh)
             if view is None or ref is None:
                 return "unparseable-header-or-foreign-share-number"
@@ -372,7 +385,7 @@ def one_case(ck, rng, case):
                 ck.observe("repair-" + st2)
 
             # good shares must survive any repair attempt unchanged (data and foreign leases)
-            for kk, (cls, raw, path) in sorted(before.items()):
+            for kk, (cls, raw, path, _sv) in sorted(before.items()):
                 if cls != "intact":
                     continue
                 ck.mon("repair-preserves-good-shares")
@@ -391,7 +404,7 @@ def one_case(ck, rng, case):
             # shares created by the repair
             new = {kk: v for kk, v in after.items() if kk not in before}
             newgood = set()
-            for kk, (cls, raw, path) in sorted(new.items()):
+            for kk, (cls, raw, path, _sv) in sorted(new.items()):
                 ck.mon("repaired-share-valid")
                 if cls == "damaged":
                     ck.violation("repair-produced-invalid-share",
@@ -445,7 +458,7 @@ def one_case(ck, rng, case):
                                      rv, rv, cr4.get_share_counter_good(), n), w)
                 if st5 == "ok":
                     good5 = {(srv.vserver.index, sh) for sh, servers in cr5.get_sharemap().items() for srv in servers}
-                    for kk, (cls, raw, path) in sorted(new.items()):
+                    for kk, (cls, raw, path, _sv) in sorted(new.items()):
                         if cls == "equivalent":
                             ck.skip("repaired-share-differs-only-in-bytes-no-reader-consults")
                             continue
@@ -458,7 +471,7 @@ def one_case(ck, rng, case):
                 hidden = []
                 alone = len(newgood) >= k
                 if alone:
-                    for kk, (cls, raw, path) in before.items():
+                    for kk, (cls, raw, path, _sv) in before.items():
                         if os.path.exists(path):
                             os.rename(path, path + ".hidden")
                             hidden.append(path)
@@ -526,7 +539,7 @@ def judge_check(ck, label, st, cr, before, live, state, k, n, verify, desc, clas
                 ck.violation("verifier-reports-absent-share-good",
                              "verify lists s%02d/sh%d as good, no such share exists on a responding server" % kk, w)
             elif b[0] == "damaged":
-                how = classify(b[1], kk[1])
+                how = classify(b[3], kk[1])
                 ck.violation("verifier-reports-damaged-share-good/" + how,
                              "verify lists s%02d/sh%d as good although what a reader obtains from it differs from the "
                              "share the capability commits to (%s; damage family %s)"
@@ -643,9 +656,8 @@ def _f(res):
         return repr(res)[:300]
 
 
-# MUST_CATCH (selftest/breaks_c45.py).  The unchanged tree already violates C45 (key
-# verifier-reports-damaged-share-good/own-share-hash-leaf-never-consulted), so the breaks were applied on a scratch
-# copy that also carries the proposed fix; each produced its own key:
+# MUST_CATCH (selftest/breaks_c45.py, all 11 caught by tools/selftest.py --prop C45; seeded/C45-1..4 caught by
+# tools/selftest.py --seeded --only C45):
 #   c45-verifier-skips-block-hash-validation   -> verifier-reports-damaged-share-good/differs-in-blocks
 #   c45-verifier-skips-ueb-hash                -> verifier-reports-damaged-share-good/differs-in-...uri-extension
 #   c45-verifier-skips-ciphertext-hash-tree    -> verifier-reports-damaged-share-good/differs-in-ciphertext-hashes
@@ -655,6 +667,15 @@ def _f(res):
 #   c45-check-drops-a-server-answer            -> check-sharemap-differs-from-shares-present
 #   c45-repairer-wrong-k                       -> repair-produced-invalid-share, post-repair-healthy-claim-not-confirmed
 #   c45-repairer-reads-wrong-offset            -> repair-produced-invalid-share
-#   c45-repair-success-at-k-shares             -> post-repair-healthy-claim-not-confirmed
+#   c45-repair-success-at-k-shares             -> post-repair-health-disagrees-with-its-sharemap
 #   c45-repair-overwrites-existing-share       -> repair-dropped-leases-of-good-share (share data is rewritten with
 #                                                 identical bytes; the leases the share carried are lost)
+#   seeded/C45-1 (single-segment ciphertext hash tree not verified) -> .../differs-in-ciphertext-hashes
+#   seeded/C45-2 (late-binding lambda verifies the last share of a server N times) -> verifier-rejects-intact-share
+#   seeded/C45-3 (get_segsize() fast path returns the guess; needs read-then-repair / repair-twice on one node object
+#                 and a file larger than its max_segment_size) -> repair-produced-invalid-share,
+#                 repaired-share-fails-fresh-verification, file-unreadable-from-repaired-shares-alone
+#   seeded/C45-4 (UploadResults list every allocated share; needs a server failing write/close of a replacement
+#                 share) -> post-repair-results-list-absent-share, post-repair-healthy-with-fewer-than-N-shares-on-disk
+# History: the unchanged tree used to violate C45 (verifier never tied the block hash tree to the share-hash leaf of
+# the share number being verified; key .../own-share-hash-leaf-never-consulted); fixed in /repo by 7f290d0.
